@@ -10,6 +10,43 @@ ENUM_DEF = 'samlang_ast::mir::EnumTypeDefinition'
 TYPE_DEF = 'samlang_ast::mir::TypeDefinition'
 
 
+def _option_pred_sources(prog, b, local, depth=0, seen=None):
+    """bool-returning compiler functions called inside closures on the chain of Option adapters that produced `local`"""
+    from ..cfg import def_sites
+    seen = seen if seen is not None else set()
+    out = []
+    if local in seen or depth > 8:
+        return out
+    seen.add(local)
+    for ds in def_sites(b).get(local, []):
+        if b.blocks[ds[0]].cleanup:
+            continue
+        if ds[1] == 'term':
+            t = ds[2]
+            for o in t[3]:
+                if o[0] in ('c', 'm'):
+                    ty = b.locals[o[1].local]
+                    if ty.k == 'closure' and ty.id in prog.bodies:
+                        cb = prog.bodies[ty.id]
+                        for bl in cb.blocks:
+                            if bl.cleanup or bl.term[0] != 'call':
+                                continue
+                            tg = prog.bodies.get(callee(bl.term)[0])
+                            if tg is not None and tg.crate == 'samlang_compiler' and tg.locals[0].s == 'bool':
+                                out.append(tg)
+            if t[3] and t[3][0][0] in ('c', 'm'):
+                r, _ = operand_root(b, t[3][0])
+                if r is not None:
+                    out += _option_pred_sources(prog, b, r, depth + 1, seen)
+        else:
+            rv = ds[2]
+            if rv[0] == 'use' and rv[1][0] in ('c', 'm'):
+                r, _ = operand_root(b, rv[1])
+                if r is not None:
+                    out += _option_pred_sources(prog, b, r, depth + 1, seen)
+    return out
+
+
 def run(prog, tier, repo):
     res = RuleResult('ENUM-EVIDENCE', 'C01: distinct enum values stay distinguishable - the unboxed representation is chosen '
                      'only on evidence that the payload type is always a pointer')
@@ -50,6 +87,23 @@ def run(prog, tier, repo):
                         if cfg.edges_dominate(true_edges, bi):
                             preds[tgt.id] = tgt
                             guarded = True
+                    if not guarded:
+                        # the decision may travel as an Option: `Some(t).filter(|t| self.predicate(t))` ... `match .. { Some(t) =>`
+                        for bj, bl2 in enumerate(b.blocks):
+                            t2 = bl2.term
+                            if bl2.cleanup or t2[0] != 'switch' or t2[1][0] not in ('c', 'm'):
+                                continue
+                            sd2 = single_def(b, t2[1][1].local)
+                            if not (sd2 and sd2[1] != 'term' and sd2[2][0] == 'disc'):
+                                continue
+                            ol = root_local(b, sd2[2][1].local)[0]
+                            if not b.locals[ol].s.startswith(('std::option::Option', 'core::option::Option')):
+                                continue
+                            some_edges = [(bj, tg) for v, tg in t2[2] if v == 1]
+                            if some_edges and cfg.edges_dominate(some_edges, bi):
+                                for tgt in _option_pred_sources(prog, b, ol):
+                                    preds[tgt.id] = tgt
+                                    guarded = True
                     key = f'unboxed-site:{b.name}'
                     # re-wrapping an existing unboxed variant (type rewriting passes): inside the Unboxed arm of a match
                     from ..tables import enum_switches
@@ -95,6 +149,24 @@ def run(prog, tier, repo):
                     writes.append(st[3])
             t = bl.term
             if t[0] == 'call' and t[4].local == 0 and not t[4].proj:
+                # `lookup.is_some_and(f)` is true only for a found definition: the evidence is built in
+                nm_ = callee(t)[1] or ''
+                if nm_.endswith(('Option::<T>::is_some_and',)) and t[3] and t[3][0][0] in ('c', 'm'):
+                    cur, via_lookup = operand_root(p, t[3][0])[0], False
+                    for _d in range(5):
+                        if cur in {t2[4].local for _b2, t2 in lookups}:
+                            via_lookup = True
+                            break
+                        sd_ = single_def(p, cur) if cur is not None else None
+                        if sd_ and sd_[1] == 'term' and sd_[2][3] and (callee(sd_[2])[1] or '').split('::')[-1] in (
+                                'map', 'as_ref', 'copied', 'cloned', 'as_deref', 'filter', 'and_then'):
+                            cur = operand_root(p, sd_[2][3][0])[0]
+                            continue
+                        break
+                    if via_lookup:
+                        n_true += 1
+                        res.ok(f'evidence:{p.name}', p.loc(t[7]), 'the answer is `is_some_and` of the lookup of the payload definition')
+                        continue
                 writes.append(t[7])
             for line in writes:
                 n_true += 1
